@@ -5,6 +5,7 @@ import (
 	"sync"
 
 	"github.com/aperturerobotics/bifrost/link"
+	"github.com/aperturerobotics/bifrost/util/verifhook"
 )
 
 // SolicitMountedStream is the value type for SolicitProtocol.
@@ -41,6 +42,7 @@ func (s *solicitMountedStream) AcceptMountedStream() (link.MountedStream, bool, 
 	if s.err != nil {
 		return nil, false, s.err
 	}
+	verifhook.Point("solicit.accept.gap")
 
 	s.mu.Lock()
 	defer s.mu.Unlock()
